@@ -207,6 +207,68 @@ mod verif_driver_assets {
         println!("VERIF-CASES fn=from n={n}");
     }
 
+    // C15 for EVERY asset class a value can hold - also the ones the constructors never produce themselves but
+    // `from_class_and_amount` / deserialisation can (`Named([])`, `Defined([], name)`, `Defined(policy, [])`) and names that
+    // look special (`lovelace`, `ada`): each class stays apart from every other, negation is the inverse, a - b = a + (-b), and
+    // the list conversion keeps the class.
+    #[test]
+    fn every_class_stays_apart() {
+        use crate::model::v1beta0::AssetExpr;
+        let mut n = 0;
+        let all: Vec<AssetClass> = vec![
+            AssetClass::Naked, AssetClass::Named(b"t".to_vec()), AssetClass::Named(vec![]), AssetClass::Named(b"lovelace".to_vec()), AssetClass::Named(b"ada".to_vec()),
+            AssetClass::Defined(vec![7u8; 28], b"x".to_vec()), AssetClass::Defined(vec![], b"x".to_vec()), AssetClass::Defined(vec![7u8; 28], vec![]), AssetClass::Defined(vec![7u8; 28], b"lovelace".to_vec()),
+        ];
+        let amt = |a: &CanonicalAssets, c: &AssetClass| a.asset_amount(c).unwrap_or(0);
+        let prev = std::panic::take_hook();
+        std::panic::set_hook(Box::new(|_| {}));
+        for (i, c) in all.iter().enumerate() {
+            for x in [-2i128, -1, 1, 2] {
+                n += 1;
+                let r = catch_unwind(AssertUnwindSafe(|| {
+                    let a = CanonicalAssets::from_class_and_amount(c.clone(), x);
+                    let neg = -a.clone();
+                    let zero = a.clone() + neg.clone();
+                    let dbl = -(neg.clone());
+                    let b = CanonicalAssets::from_class_and_amount(all[(i + 1) % all.len()].clone(), 5) + a.clone();
+                    let sub = b.clone() - a.clone();
+                    let add_neg = b.clone() + neg.clone();
+                    (a, neg, zero, dbl, sub, add_neg)
+                }));
+                match r {
+                    Err(_) => witness("c15_assets/neg#reachable-panic", "neg", format!("class {c:?} amount {x}"), "panic".into(), "no panic"),
+                    Ok((a, neg, zero, dbl, sub, add_neg)) => {
+                        if amt(&neg, c) != -x || all.iter().any(|o| o != c && amt(&neg, o) != 0) { witness("c15_assets/neg#postcondition", "neg", format!("class {c:?} amount {x}"), format!("{neg:?}"), "the same class with the opposite amount, nothing else"); }
+                        if !zero.is_empty() || !(zero == CanonicalAssets::empty()) { witness("c15_assets/add#inverse", "add", format!("a + (-a), class {c:?} amount {x}"), format!("{zero:?}"), "the zero value"); }
+                        if !(dbl == a) { witness("c15_assets/neg#postcondition", "neg", format!("-(-a), class {c:?} amount {x}"), format!("{dbl:?}"), "a"); }
+                        if !(sub == add_neg) { witness("c15_assets/sub#is-add-neg", "sub", format!("b - a vs b + (-a), class {c:?} amount {x}"), format!("{sub:?} vs {add_neg:?}"), "equal"); }
+                    }
+                }
+            }
+            // the named-asset constructor keeps every non-empty name as a class of its own
+            if let AssetClass::Named(name) = c {
+                if !name.is_empty() {
+                    n += 1;
+                    let v = CanonicalAssets::from_named_asset(name, 5);
+                    if amt(&v, c) != 5 || v.naked_amount().unwrap_or(0) != 0 { witness("c15_assets/from_named_asset#postcondition", "from_named_asset", format!("name {:?}", String::from_utf8_lossy(name)), format!("{v:?}"), "5 units of the class named so, no lovelace"); }
+                }
+            }
+            // list conversion and back keeps the class (for classes the list form can express: a policy-less empty name IS lovelace)
+            if !matches!(c, AssetClass::Named(nm) if nm.is_empty()) && !matches!(c, AssetClass::Defined(p, _) if p.is_empty()) {
+                n += 1;
+                let a = CanonicalAssets::from_class_and_amount(c.clone(), 3) + CanonicalAssets::from_naked_amount(10);
+                let r = catch_unwind(AssertUnwindSafe(|| { let l: Vec<AssetExpr> = a.clone().into(); CanonicalAssets::from(l) }));
+                match r {
+                    Ok(back) => { let want_naked = if *c == AssetClass::Naked { 13 } else { 10 }; if amt(&back, c) != (if *c == AssetClass::Naked { 13 } else { 3 }) || back.naked_amount().unwrap_or(0) != want_naked { witness("c15_assets/round_trip#postcondition", "from", format!("class {c:?}: 3 units + 10 lovelace"), format!("{back:?}"), "the same value after Vec<AssetExpr> and back"); } }
+                    Err(_) => witness("c15_assets/round_trip#reachable-panic", "from", format!("class {c:?}"), "panic".into(), "no panic"),
+                }
+            }
+        }
+        std::panic::set_hook(prev);
+        println!("VERIF-CASES fn=neg n={n}");
+        println!("VERIF-CASES fn=from_named_asset n={n}");
+    }
+
     // C15 / C02 at the expression level (`impl<T: Into<CanonicalAssets>> Arithmetic for T`, reduce/mod.rs): adding and
     // subtracting asset lists is exactly the algebra of the values - negative intermediate components included
     // (`source - quantity - fees` goes below zero in intermediate rounds), nothing filtered or clamped.
